@@ -22,7 +22,7 @@ WIT = ["tls_completed", "credentials_sent_encrypted", "client_gave_up"]
 def run(tier):
     C.ensure_tls_material()
     if tier == "thorough":
-        cfgs = [dict(name="cfg%d" % i, config={"cfg": i}, depth=7, dev=5, deadline=500) for i in range(6)]
+        cfgs = [dict(name="cfg%d" % i, config={"cfg": i}, depth=9, dev=6, deadline=600) for i in range(6)]
         return bfs_check(PROP, HARNESS, tier, cfgs, RULE, ASSUME, witness_required=WIT)
     cfgs = [dict(name="cfg%d" % i, config={"cfg": i}, depth=5, dev=3, deadline=150) for i in range(6)]
     return bfs_check(PROP, HARNESS, tier, cfgs, RULE, ASSUME, witness_required=WIT)
